@@ -1193,9 +1193,20 @@ fn run_inflate(c: &mut Ctx) {
             c.evaluations += 1; c.count(&format!("inflate.level{}", level));
             c.corr(format!("inflate {}", hex_tok(&z)), format!("ok {}", hex_tok(&plain)));
             if !big {
-                // without (part of) the Adler-32 the data is still complete; cut further it is not
-                let cut = 1 + r.usize(4); c.corr(format!("inflate {}", hex_tok(&z[..z.len() - cut])), format!("ok {}", hex_tok(&plain))); c.count("inflate.adler_cut");
-                if z.len() > 12 { let cut = 5 + r.usize(z.len() - 11); c.corr(format!("inflate {}", hex_tok(&z[..z.len() - cut])), "none".into()); c.count("inflate.data_cut"); }
+                // what lopdf gets from flate2 (read_to_end, error ignored) decides what the specification has to say:
+                // complete output -> `ok <it>`; anything else (lost tail, nothing) -> the specification must answer `none`
+                let spec_reply = |z: &[u8]| -> String { let o = ext_inflate(z); if o == plain { format!("ok {}", hex_tok(&plain)) } else { "none".into() } };
+                // the Adler-32 cut short (1..4 bytes missing): flate2 has produced everything before it complains
+                let cut = 1 + r.usize(4); let zc = &z[..z.len() - cut];
+                c.corr(format!("inflate {}", hex_tok(zc)), spec_reply(zc)); c.count(if ext_inflate(zc) == plain { "inflate.adler_cut.complete" } else { "inflate.adler_cut.lost" });
+                // the Adler-32 present but wrong: flate2 reports it with the last output, which read_to_end drops
+                let mut zb = z.clone(); let k = zb.len() - 1 - r.usize(4); zb[k] ^= 1 << r.below(8);
+                c.corr(format!("inflate {}", hex_tok(&zb)), spec_reply(&zb)); c.count(if ext_inflate(&zb) == plain { "inflate.adler_wrong.complete" } else { "inflate.adler_wrong.lost" });
+                // cut inside the data
+                if z.len() > 12 { let cut = 5 + r.usize(z.len() - 11); let zd = &z[..z.len() - cut]; let rep = spec_reply(zd); if rep == "none" { c.corr(format!("inflate {}", hex_tok(zd)), rep); c.count("inflate.data_cut"); } else { c.count("inflate.data_cut.still_complete"); } }
+                // bytes after the stream
+                let mut zt = z.clone(); let nt = 1 + r.usize(6); zt.extend(r.bytes(nt));
+                c.corr(format!("inflate {}", hex_tok(&zt)), spec_reply(&zt)); c.count("inflate.trailing_bytes");
             }
         }
         // the theorem's encoder: Lean bytes = this rendering, and flate2 decodes them to the plaintext
